@@ -1589,6 +1589,10 @@ func c14URIEncode(c *c14ctx, s string) string {
 
 func c14URI(c *c14ctx) {
 	s := c14ByteString(c)
+	if c.ch(5) == 0 {
+		// text that already looks escaped is text: it is escaped once more
+		s = []string{"a+b", "C++", "1+1", "100%25", "x%2Fy", "tom+jerry%40example.org", "%41", "a%20b", "+", "%2B"}[c.ch(10)]
+	}
 	input := ref.QuoteJSON(s)
 	c.cs["string"] = s
 	c.sig = fmt.Sprintf("%x", hashStr(s))
